@@ -25,6 +25,9 @@ def run_config(chk, tier, cfgname):
                 "since and no work done it is exactly max(a - max(survivors * sleep_factor, min_sleep), 0): zero while asleep, "
                 "positive once the allocations exceed the wake-up amount.")
     common.protocol_rows(chk, prog, "exit-structure", ["collect_debt", "mark_debt", "cycle_debt"], with_pacing=True, aspects=("pacing",))
+    # its own rule name, so that a finding recorded against it cannot mask an exit-structure problem of the same row
+    common.protocol_rows(chk, prog, "no-yield-between-last-sweep-step-and-roll-over", ["collect_debt", "cycle_debt"], with_pacing=True,
+                         general=False, per_method=False, aspects=("stw",))
     for t in ("trace", "trace_weak", "resurrect", "mark_one", "sweep_one", "backward_barrier", "forward_barrier", "link"):
         typestate.apply(chk, "credited-at-most-once:" + t, t, aspects=("credits", "credits-over", "credits-repeat"))
     rules_debt.check_formula(chk, prog)
